@@ -86,6 +86,10 @@ type c10Op struct {
 	RCpus     []int     `json:"rcpus,omitempty"`
 	Sys       []int     `json:"sys,omitempty"`
 	SysX      bool      `json:"sysx,omitempty"`
+	// the CPU list of the annotation is written in a form that does not parse ("0-1,x"): it names no CPU then, and the
+	// event says so (rcpus / sys logged empty); the OTHER annotation keeps protecting its CPUs
+	RBad   bool `json:"rbad,omitempty"`
+	SysBad bool `json:"sysbad,omitempty"`
 	Thr       int64     `json:"thr,omitempty"`
 	MinP      int64     `json:"minp,omitempty"`
 	Old       []int     `json:"old,omitempty"`
@@ -249,13 +253,16 @@ func (e *c10Env) setup(in c10Op) *c10State {
 	c10Write(e.beDir, system.CPUCFSQuota, strconv.FormatInt(in.Quota0, 10))
 	// --- node
 	resv := ""
-	if in.ARes > 0 || len(in.RCpus) > 0 {
+	if in.ARes > 0 || len(in.RCpus) > 0 || in.RBad {
 		m := map[string]interface{}{}
 		if in.ARes > 0 {
 			m["resources"] = map[string]string{"cpu": fmt.Sprintf("%dm", in.ARes)}
 		}
 		if len(in.RCpus) > 0 {
 			m["reservedCPUs"] = c10FmtCPUs(in.RCpus)
+		}
+		if in.RBad {
+			m["reservedCPUs"] = strings.TrimPrefix(c10FmtCPUs(in.RCpus)+",x", ",")
 		}
 		b, _ := json.Marshal(m)
 		resv = string(b)
@@ -272,8 +279,11 @@ func (e *c10Env) setup(in c10Op) *c10State {
 		st.node.Annotations[apiext.AnnotationNodeReservation] = resv
 		topoAnno[apiext.AnnotationNodeReservation] = resv
 	}
-	if len(in.Sys) > 0 {
+	if len(in.Sys) > 0 || in.SysBad {
 		m := map[string]interface{}{"cpuset": c10FmtCPUs(in.Sys)}
+		if in.SysBad {
+			m["cpuset"] = strings.TrimPrefix(c10FmtCPUs(in.Sys)+",x", ",")
+		}
 		if !in.SysX {
 			m["cpusetExclusive"] = false
 		}
@@ -335,9 +345,16 @@ func (e *c10Env) resetEvent(in c10Op) vu.Ev {
 	if kubelet == "" {
 		kubelet = "none"
 	}
-	return vu.Ev{"procs": procs, "pods": pods, "hosts": hosts, "nodeUsage": in.NodeUsage, "cap": in.Cap, "kres": in.KRes, "ares": in.ARes,
+	ev := vu.Ev{"procs": procs, "pods": pods, "hosts": hosts, "nodeUsage": in.NodeUsage, "cap": in.Cap, "kres": in.KRes, "ares": in.ARes,
 		"rcpus": c10Ints(in.RCpus), "sys": c10Ints(in.Sys), "sysx": in.SysX, "thr": in.Thr, "minp": in.MinP, "old": c10Ints(in.Old),
 		"quota0": in.Quota0, "kubelet": kubelet}
+	if in.RBad {
+		ev["rcpus"], ev["rbad"] = []int{}, true
+	}
+	if in.SysBad {
+		ev["sys"], ev["sysbad"] = []int{}, true
+	}
+	return ev
 }
 
 func (st *c10State) budget() *resource.Quantity {
@@ -656,6 +673,13 @@ func c10Random(rng *rand.Rand, big bool) []c10Op {
 	if rng.Intn(8) == 0 && n > 1 { // annotations mentioning CPUs that do not exist
 		in.Sys = append(in.Sys, 200+rng.Intn(5))
 	}
+	if rng.Intn(6) == 0 && (len(in.RCpus) > 0 || len(in.Sys) > 0) { // one of the two CPU lists does not parse
+		if in.ARes == 0 && len(in.RCpus) > 0 && (len(in.Sys) == 0 || rng.Intn(2) == 0) {
+			in.RBad = true
+		} else if len(in.Sys) > 0 {
+			in.SysBad = true
+		}
+	}
 	for k := 0; k < rng.Intn(3); k++ {
 		hm := [][2]string{{"BE", "KubepodsBesteffort"}, {"BE", "CgroupRoot"}, {"LS", "KubepodsBurstable"}, {"LS", "KubepodsBesteffort"}, {"BE", ""}, {"", "Kubepods"}}
 		c := hm[rng.Intn(len(hm))]
@@ -679,7 +703,7 @@ func c10Random(rng *rand.Rand, big bool) []c10Op {
 	if rng.Intn(2) == 0 {
 		in.KRes = 125 * int64(rng.Intn(4*n+1))
 	}
-	if rng.Intn(3) == 0 {
+	if rng.Intn(3) == 0 && !in.RBad { // (a reservation whose CPU list does not parse is dropped as a whole by the budget side)
 		in.ARes = 125 * int64(1+rng.Intn(4*n))
 	}
 	in.Thr = c10Pick(rng, 0, 20, 50, 65, 65, 65, 80, 100, int64(rng.Intn(101)))
